@@ -7,7 +7,7 @@ from . import core
 
 HOOK_COMMITS = ["0aef0c9", "20de43e", "9f327a6"]
 FIX_COMMITS = ["234becf", "790b4d0", "4f01341", "60bfb90", "0b426b2", "e95a0ef", "699cec2", "fc3df1b", "a483ad6",
-               "121ee44", "95ae875", "df3147f", "78b42a1", "f364479", "6b53a15", "8342e2c", "ab220d5", "a20abe7", "317f56d", "408e1c7", "db63622", "2b878ef", "990ff9c", "e6af885", "f4a00ae", "b49314c", "ea68843", "041ee27", "3bd9c91", "b2576fe", "455b1bc", "f55c3e7", "b09e022", "81dbf73", "8227c8a", "2eccdb7", "7054be1", "093ba7c", "730c76a", "d75e85d"]
+               "121ee44", "95ae875", "df3147f", "78b42a1", "f364479", "6b53a15", "8342e2c", "ab220d5", "a20abe7", "317f56d", "408e1c7", "db63622", "2b878ef", "990ff9c", "e6af885", "f4a00ae", "b49314c", "ea68843", "041ee27", "3bd9c91", "b2576fe", "455b1bc", "f55c3e7", "b09e022", "81dbf73", "8227c8a", "2eccdb7", "7054be1", "093ba7c", "730c76a", "d75e85d", "96dbe61"]
 
 def _load_dir(d):
     out = {}
